@@ -287,3 +287,67 @@ def config_alignment(ctx: Ctx) -> None:
         if not n_payload:
             problems.append('no payload is yielded')
         (ctx.bad if problems else ctx.ok)(R, f, f.node, '; '.join(problems) or f'each {kind} payload carries its own label and that label\'s config', key=key + ':payload')
+
+
+def sequential_pool_agree(ctx: Ctx) -> None:
+    R = 'I.parallel-sequential-args'
+    ctx.rule(R, 'sibling agreement inside each Batch applicator: the in-process branch calls the worker function on an argument tuple built from the iteration\'s '
+             '(label, frame); the pooled branch hands the same worker function to the pool helper and its generator yields the same tuple (loop variables compared '
+             'by position in the loop target, not by name): a component taken from somewhere else (frame.name for the label, a different callable) makes '
+             'the pooled answer differ from the sequential one', floor=5)
+    prog = ctx.prog
+    k = prog.cls('Batch')
+    n = 0
+
+    def canon(e: ast.AST, lp: ast.For) -> str:
+        names = [x.id for x in (lp.target.elts if isinstance(lp.target, ast.Tuple) else [lp.target]) if isinstance(x, ast.Name)]
+
+        class T(ast.NodeTransformer):
+            def visit_Name(self, node):
+                if node.id in names:
+                    return ast.copy_location(ast.Name(id=f'_t{names.index(node.id)}', ctx=node.ctx), node)
+                return node
+        import copy
+        return norm(T().visit(copy.deepcopy(e)))
+
+    for defs in k.method_defs.values():
+        for f in defs:
+            gens = [g for g in f.nested if g.is_generator()]
+            if len(gens) < 2:
+                continue
+            seq: tp.List[tp.Tuple[str, str, ast.AST]] = []      # (worker, canonical tuple, node)
+            pool: tp.List[tp.Tuple[str, ast.AST, ast.For, FuncInfo]] = []
+            for g in gens:
+                for lp in walk_local(g.node):
+                    if not isinstance(lp, ast.For):
+                        continue
+                    for x in ast.walk(lp):
+                        # worker((a, b, ...)) inside a yield of the in-process generator
+                        if isinstance(x, ast.Call) and isinstance(x.func, ast.Name) and len(x.args) == 1 and isinstance(x.args[0], ast.Tuple) and not x.keywords \
+                                and x.func.id not in ('tuple', 'list', 'set', 'frozenset', 'dict', 'zip', 'len', 'sorted'):
+                            seq.append((x.func.id, canon(x.args[0], lp), x))
+                        if isinstance(x, ast.Yield) and isinstance(x.value, ast.Tuple) and _feeds_pool(g):
+                            pool.append((canon(x.value, lp), x, lp, g))
+            if not seq or not pool:
+                continue
+            helpers = [c for c in walk_local(f.node) if isinstance(c, ast.Call) and call_name(c).startswith('self._apply_pool')]
+            for ptxt, pnode, lp, g in pool:
+                n += 1
+                key = f'Batch.{f.name}'
+                use = [h for h in helpers if any(isinstance(a, ast.Call) and isinstance(a.func, ast.Name) and a.func.id == g.name for a in h.args)]
+                if not use:
+                    ctx.unk(R, f, pnode, 'the generator is not handed to a pool helper', key=key)
+                    continue
+                h = use[0]
+                workers = [a.id for a in h.args if isinstance(a, ast.Name) and a.id in {w for w, _t, _n in seq}]
+                w_seq = {w for w, _t, _n in seq}
+                if not workers:
+                    ctx.bad(R, f, h, f'the pool helper is given none of the worker functions of the in-process branch ({sorted(w_seq)}): the pooled form computes something else', key=key)
+                    continue
+                match = [t for w, t, _n in seq if w == workers[0]]
+                if ptxt in match:
+                    ctx.ok(R, f, pnode, f'both branches call {workers[0]} on `{ptxt}`', key=key)
+                else:
+                    ctx.bad(R, f, pnode, f'the pooled branch yields `{ptxt}` to {workers[0]} while the in-process branch calls it on `{match[0]}` '
+                            '(_t0, _t1: the loop\'s label and frame): the pooled result differs from the sequential one', key=key)
+    ctx.require(n >= 5, 'Batch applicators with an in-process and a pooled branch')
